@@ -122,6 +122,7 @@ def main():
             m = json.load(open(meta))
             r = check(os.path.join(d, "patch.diff"), m.get("checks", [m["property"]]), tier)
             res.append((name, r))
+        json.dump({n: r for n, r in res}, open(os.path.join(base, "RESULTS.json"), "w"), indent=1, sort_keys=True)
         missed = [n for n, r in res if not any(v == "CAUGHT" for v in r.values())]
         print("seeded changes: %d, caught by at least one listed check: %d, missed: %s" % (len(res), len(res) - len(missed), missed))
 
